@@ -188,6 +188,10 @@ class _Linalg:
 
 def _np_maximum(a, b, out=None):
     if isinstance(a, SymArray):
+        if out is a:
+            snap = SymArray(a.shape, a._fn, a.guard)
+            snap._memo = a._memo
+            a = snap
         r = a._ew(b, lambda x, y: sym.ite(SR.lift(x).e >= SR.lift(y).e, x, y))
         if out is not None:
             out._fn, out._memo = r._fn, {}
